@@ -43,7 +43,13 @@ func Partitions(n int) *PartitionIterator {
 	for i := range b {
 		b[i] = 1
 	}
-	return &PartitionIterator{n: n, m: 1, a: a, b: b}
+	//m is the largest value the last entry may take, that is one more than the largest of the earlier entries.
+	//There are no earlier entries when n = 1 and then the only restricted growth string is 0.
+	m := 1
+	if n == 1 {
+		m = 0
+	}
+	return &PartitionIterator{n: n, m: m, a: a, b: b}
 }
 
 //Next tries to advance pi to the next partition, returning true if there is one and false if there isn't.
